@@ -239,9 +239,10 @@ var propRules = map[string]*PropSpec{
 		Technique:  techMix,
 	},
 	"C15": {
-		Rules:       []string{"U1", "A1.api32", "F3.32", "F8.bitmap", "F8.run", "F2", "B8", "U4", "U5", "LP1", "GAL1", "U10"},
+		Rules:       []string{"U1", "A1.api32", "F3.32", "F8.bitmap", "F8.run", "F2", "B8", "U4", "U5", "LP1", "GAL1", "U10", "CACHE1"},
 		Explanation: explBase + " C15: kernels can express the out-of-chunk sentinels (no 16-bit wrap in the neighbour kernels and drivers) and the queries are pure. Everything else about these functions is value-level.",
 		Decided: []string{
+			"the neighbour walks keep what they cache beside a cursor in step with it: the key beside the chunk index, and the chunk's answer beside the key the chunk was fetched with",
 			"no 16-bit sum or difference is compared as it is (it wraps at 65535 / 0); start+length of one interval and two triaged key±1 comparisons between strictly ordered keys are the only sites",
 			"the position answered by a galloping search is compared with a bound before it is used as an index (directly, or as the loop's position variable)",
 			"no (value, error) result is used only on the error side of its test (the inverted check that made the walk past the last chunk answer -1)",
